@@ -1,7 +1,9 @@
 package props
 
 import (
+	"errors"
 	"fmt"
+	"github.com/ucan-wg/go-ucan/pkg/args"
 	"strings"
 
 	"verifharness/chain"
@@ -25,7 +27,7 @@ func init() {
 		MinEvals:    floor(3900, 110000),
 		MinDistinct: floor(2500, 60000),
 		RequiredCells: func(string) []string {
-			cells := []string{"after-a-denied-check-with-incomplete-store", "deep-nesting", "vacuous", "vacuous/no-arguments", "vacuous/unrelated-argument", "far-bounds/inv-exp", "far-bounds/exp>292y", "scale", "scale/long-chain", "scale/deep-command", "scale/many-statements", "scale/principal-thrice", "hook", "meta-plain", "meta-enc", "nonce-long", "cause", "iat=1", "iat=2", "iat=3", "inv-exp", "self-delegation", "subject=invoker", "equal-commands", "top-root", "policy/ipld", "policy/constructors", "no-policy"}
+			cells := []string{"after-fault/hook-nil-nil", "after-fault/hook-duplicate-key", "after-fault/hook-error", "after-fault/hook-panics", "after-fault/loader-fails-midway", "after-fault/policy-violated", "after-a-denied-check-with-incomplete-store", "deep-nesting", "vacuous", "vacuous/no-arguments", "vacuous/unrelated-argument", "far-bounds/inv-exp", "far-bounds/exp>292y", "scale", "scale/long-chain", "scale/deep-command", "scale/many-statements", "scale/principal-thrice", "hook", "meta-plain", "meta-enc", "nonce-long", "cause", "iat=1", "iat=2", "iat=3", "inv-exp", "self-delegation", "subject=invoker", "equal-commands", "top-root", "policy/ipld", "policy/constructors", "no-policy"}
 			for _, a := range []string{"unset", "subject", "invoker", "third", "chain"} {
 				cells = append(cells, "audience="+a)
 			}
@@ -50,6 +52,7 @@ func runC05(w *mon.W) {
 	c05Scale(w)
 	c05Vacuous(w)
 	c05Deep(w)
+	c05AfterFaults(w)
 	r := w.Rng
 	total := w.Share(w.Pick(6000, 120000))
 	for it := 0; it < total; it++ {
@@ -432,6 +435,76 @@ func c05Deep(w *mon.W) {
 				delete(dd, "proofs_leaf_to_root")
 				w.Violate("denied/deep-nesting/"+classifyErr(e), fmt.Sprintf("a conforming chain whose link %d holds a statement that is true under %d enclosing not/and/or statements was denied: %s", k, d, errStr(e)), dd)
 			}
+		}
+	}
+}
+
+// c05AfterFaults: a conforming chain Y is checked right after a check of ANOTHER chain X (which
+// carries policies) went wrong in some way - its argument hook returned (nil, nil), an argument
+// map listing a key twice, an error, or panicked; its loader failed half-way; its arguments
+// violated a policy. Whatever X left behind, Y must be allowed.
+func c05AfterFaults(w *mon.W) {
+	r := w.Rng
+	for it := 0; it < w.Share(w.Pick(400, 6000)); it++ {
+		x := chain.FullConformant(r, 1+r.IntN(4), 0)
+		for k := range x.Links {
+			if len(x.Links[k].Pol) == 0 {
+				x.Links[k].Pol = ref.Policy{{Kind: "==", Sel: ref.Sel{{Kind: ref.SField, Name: "from"}}, Val: ref.Str("alice@example.com")}}
+			}
+		}
+		x.Args = ref.Map(ref.E("from", ref.Str("mallory@example.com")), ref.E("n", ref.Int(1)))
+		x.Wire = 0
+		y := chain.FullConformant(r, 1+r.IntN(4), 0)
+		if it%2 == 0 {
+			y.Args = ref.Map()
+			for k := range y.Links {
+				y.Links[k].Pol = nil
+			}
+		}
+		y.Wire = r.IntN(3)
+		if ok, _ := y.Conforming(); !ok {
+			continue
+		}
+		bx, err := x.Build(r)
+		if err != nil {
+			continue
+		}
+		by, err := y.Build(r)
+		if err != nil {
+			continue
+		}
+		fault := []string{"hook-nil-nil", "hook-duplicate-key", "hook-error", "hook-panics", "loader-fails-midway", "policy-violated"}[it%6]
+		mon.Guard(func() {
+			switch fault {
+			case "loader-fails-midway":
+				_ = bx.Inv.ExecutionAllowed(&nthFailLoader{inner: bx.Loader, failAt: 1 + r.IntN(len(x.Links))})
+			case "policy-violated":
+				_ = bx.Inv.ExecutionAllowed(bx.Loader)
+			default:
+				_ = bx.Inv.ExecutionAllowedWithArgsHook(bx.Loader, func(a args.ReadOnly) (*args.Args, error) {
+					switch fault {
+					case "hook-nil-nil":
+						return nil, nil
+					case "hook-duplicate-key":
+						c := a.WriteableClone()
+						c.Keys = append(c.Keys, c.Keys[0])
+						return c, nil
+					case "hook-error":
+						return nil, errors.New("hook: backend unavailable")
+					}
+					panic("hook: index out of range")
+				})
+			}
+		})
+		e := judged(by.Inv, by.Loader, it%3 == 0)
+		w.Eval(2)
+		w.Cover("after-fault/" + fault)
+		w.Distinct("after-fault", fault, y.Pattern(), len(y.Args.M), y.Wire)
+		if e != nil {
+			d := y.Describe()
+			d["error"] = e.Error()
+			d["check_before"] = map[string]any{"fault": fault, "chain": x.Describe()}
+			w.Violate("denied/after-fault/"+fault+"/"+classifyErr(e), fmt.Sprintf("a conforming chain was denied (%s) right after a check of another chain had gone wrong (%s)", errStr(e), fault), d)
 		}
 	}
 }
